@@ -1,8 +1,14 @@
 package gen
 
 import (
+	"encoding/json"
+	"errors"
 	"fmt"
 	"math"
+	"math/big"
+	"net"
+	"net/url"
+	"os"
 	"strings"
 	"time"
 
@@ -123,6 +129,11 @@ func Scalars() []Named {
 		N("str-empty", ""), N("str-a", "a"), N("str-abc", "abc def"), N("str-utf8", "é中😀"), N("str-bad", "a\xffb"),
 		N("str-0", "0"), N("str-1", "1"), N("str-num", "12.5"), N("str--3", "-3"), N("str-1e3", "1e3"), N("str-sp", " 7 "), N("str-hex", "0x10"), N("str-inf", "Inf"), N("str-nan", "NaN"),
 		N("str-html", "<b>&\"'</b>"),
+		// standard-library types at the edge of "numbers and strings"
+		N("json.Number int", json.Number("12")), N("json.Number float", json.Number("2.5e1")), N("json.Number junk", json.Number("x")), N("[]byte", []byte("bytes")), N("rune", 'x'), N("byte", byte('y')),
+		N("error", errors.New("an error")), N("time.Duration", 90*time.Second), N("time.Month", time.March), N("time.Time", time.Date(2021, 3, 4, 5, 6, 7, 0, time.UTC)), N("time.Time zero", time.Time{}),
+		N("*big.Int", big.NewInt(42)), N("big.Float", *big.NewFloat(1.5)), N("url.URL", url.URL{Scheme: "http", Host: "h"}), N("net.IP", net.IP{127, 0, 0, 1}), N("os.FileMode", os.FileMode(0o644)),
+		N("typed nil in iface slice", []interface{}{(*int)(nil)}), N("[2]string", [2]string{"a", "b"}), N("struct{}", struct{}{}), N("*struct{}", &struct{}{}), N("**int", func() **int { i := 3; p := &i; return &p }()),
 		N("embeds nil Stringer/Number/Boolean", EmbedsIfaces{}), N("*embeds nil Stringer/Number/Boolean", &EmbedsIfaces{}), N("embeds Stringer, nil Number/Boolean", EmbedsIfaces{Stringer: ValStringer{"es"}}),
 		N("embeds Number, nil Stringer", EmbedsIfaces{Number: ValNumber{2}}), N("embeds nil *Stringer-impl", EmbedsStringerPtr{Tag: "t"}), N("embeds *Stringer-impl", EmbedsStringerPtr{&ValStringer{"ep"}, "t"}),
 		// letters whose other case has another length in UTF-8, alone and followed by a little
